@@ -172,6 +172,7 @@ class World:
         self.path_style = path_style
         self.retired = set()        # paths consumed by conflict gadgets: never touched again
         self.guard_retouch = False  # when set: no op may touch an object created/written earlier in this window
+        self.strict_dirmove = False # when set: the id/id exception of DIRMOVE_ISOLATED covers new files only (no mkdir)
         self.ncontent = 0
         self.excluded = Counter()
         if hazards is None:
@@ -224,7 +225,12 @@ class World:
                 if win.vac_type[s].get(p) != self._occ_type(tree, op, a, p):
                     return "PATH_REUSE"
         if "DIRMOVE_ISOLATED" in H:
-            for (_ms, old, new) in win.dirmoves:
+            for (ms, old, new) in win.dirmoves:
+                # narrowed (DESIGN 9): when both sides are id-style, the side that renamed the folder may go on
+                # to create new objects inside it under its new name
+                allowed_ops = ("create",) if self.strict_dirmove else ("create", "mkdir")
+                if not any(self.path_style) and ms == s and op in allowed_ops and under(a[0], new) and a[0] != new:
+                    continue
                 for p in touched:
                     if under(p, old) or under(p, new):
                         return "DIRMOVE_ISOLATED"
